@@ -1,4 +1,100 @@
-(* C08 - placeholder while the pipeline is brought up *)
-From IV Require Import Base.Word Model.StreamLog Model.Rfc8888Recorder Spec.Rfc8888Spec.
-Theorem C08_placeholder : True. Proof. exact I. Qed.
-Print Assumptions C08_placeholder.
+(* C08 - RFC 8888 reports reflect the reception history and respect the size limit.
+   Statements only; proofs are in Proofs/StreamLogProofs.v and Proofs/Rfc8888Proofs.v.
+
+   The property text is the specification oracle Spec/Rfc8888Spec.v (spec_walk):
+   an independent recount from the arrival history that is also applied to the
+   IMPLEMENTATION's reports on every run.  Its codes: 1 blocks <-> streams, 2
+   contiguous range ending at the highest received, 3 received iff a first copy
+   arrived, 4 range never re-covers a packet acknowledged in a gap-free prefix
+   (3+4 = never reported lost after reported received), 5/6 arrival-time offset
+   of the FIRST copy = floor(1024*(now-arrival)) with 0x1FFE/0x1FFF, 7/10 every
+   first-time arrival is in the next report unless the block is full (newest
+   kept), 8 marshalled size <= maximum when it can hold the headers, 9 at most
+   16384 metric blocks per report block. *)
+From IV Require Import Base.Word Model.Unwrapper Model.StreamLog Model.Rfc8888Recorder
+  Spec.Rfc8888Spec Proofs.StreamLogProofs Proofs.Rfc8888Proofs.
+
+(* MAIN THEOREM.  For every history of AddPacket / BuildReport / raw-budget
+   builds over any number of SSRCs (any arrival and report clocks, any maximum
+   sizes, any placement of the builds), the reports produced by the model pass
+   the whole specification oracle, except that code 7 may be returned: a packet
+   OLDER than the first packet seen of its stream is never reported (known
+   finding, refuted below).  Hypotheses: sequence numbers are uint16, ECN is two
+   bits, raw budgets are non-negative (Go would panic), and the float kernel of
+   getArrivalTimeOffset is exact (partial: exactness of the float64 kernel is
+   validated bit-for-bit and against this oracle on every run, not proved). *)
+Theorem C08_model_meets_spec_partial : forall atok, exact_kernel atok ->
+  forall ops, Forall wf_op ops ->
+  let c := spec_walk [] ops (model_outs atok [] ops) in c = 0%nat \/ c = 7%nat.
+Proof. intros atok Hk ops Hwf. exact (model_meets_spec atok Hk ops Hwf). Qed.
+Print Assumptions C08_model_meets_spec_partial.
+
+(* non-vacuity: the exact kernel exists, and a history with loss, a duplicate,
+   a second stream and two builds is well-formed and passes with code 0 *)
+Example C08_nonvacuous :
+  exact_kernel exact_atok /\
+  let ops := [Add 1000 7 65534 0; Add 2000 7 0 1; Add 2500 9 5 0; Add 3000 7 65534 2;
+              Build 5000000 1200; Add 6000000 7 65535 0; Build 9000000000 28; BuildRaw 9000000001 3] in
+  Forall wf_op ops /\ spec_walk [] ops (model_outs exact_atok [] ops) = 0%nat.
+Proof.
+  split; [exact exact_atok_exact|]. split; [|vm_compute; reflexivity].
+  repeat constructor; cbv; congruence.
+Qed.
+Print Assumptions C08_nonvacuous.
+
+(* the faithful model does NOT report a packet older than the first of its
+   stream: 99 arrives after 100 and the next report covers [100,100] only *)
+Theorem C08_older_than_first_refuted :
+  let ops := [Add 0 1 100 0; Add 1000000 1 99 0; Build 2000000 1200] in
+  Forall wf_op ops /\
+  model_outs exact_atok [] ops = [(24, [(1, 100, [mbz true 0 2])])] /\
+  spec_walk [] ops (model_outs exact_atok [] ops) = 7%nat.
+Proof. split; [repeat constructor; cbv; congruence|]. split; vm_compute; reflexivity. Qed.
+Print Assumptions C08_older_than_first_refuted.
+
+(* arrival-time offset: for every exact kernel the model's value is the specified one *)
+Theorem C08_ato : forall atok, exact_kernel atok -> forall now arrival,
+  ato atok now arrival =
+    if now <? arrival then 8191                                              (* 0x1FFF *)
+    else if 1024 * (now - arrival) >? 8189 * 1000000000 then 8190            (* 0x1FFE *)
+    else (1024 * (now - arrival)) / 1000000000.
+Proof. intros atok Hk now arrival. exact (ato_exact atok Hk now arrival). Qed.
+Print Assumptions C08_ato.
+
+(* metricsAfter in closed form, for EVERY stream state with a non-empty log,
+   every kernel and budget: the block is the contiguous range
+   [start, lastSequenceNumberReceived] with start = the cursor, or the newest
+   `budget` numbers; entry k is "received" iff k is in the log; the cursor
+   advances over exactly the gap-free received prefix, which is deleted. *)
+Theorem C08_block_closed_form : forall atok s ref budget, sl_log s <> [] ->
+  let start := trunc_next s budget in
+  let log1 := trunc_log s budget in
+  let cnt := range_cnt s budget in
+  let p := Z.of_nat (pfx log1 start cnt) in
+  exists log2,
+    metrics_after atok s ref budget =
+      (mkSlog (sl_ssrc s) (sl_seq s) (sl_init s) (start + p) (sl_last s) log2,
+       (sl_ssrc s, u16 start, map (mbof atok ref log1) (zrange start cnt)))
+    /\ (forall k, lfind k log2 = if (start <=? k) && (k <? start + p) then None else lfind k log1).
+Proof. intros atok s ref budget H. exact (metrics_after_spec atok s ref budget H). Qed.
+Print Assumptions C08_block_closed_form.
+
+(* size limit and block limit of BuildReport: every recorder state (reachable or
+   not), every kernel, every clock, every maximum size *)
+Theorem C08_size : forall atok r now maxSize r' rep,
+  rec_build atok r now maxSize = (r', rep) ->
+  12 + 8 * Z.of_nat (length r) <= maxSize -> 0 <= marshal_len rep <= maxSize.
+Proof. intros atok r now maxSize r' rep E. exact (proj2 (build_size atok r now maxSize r' rep E)). Qed.
+Print Assumptions C08_size.
+
+Theorem C08_block_limit : forall atok r now maxSize r' rep,
+  rec_build atok r now maxSize = (r', rep) ->
+  Forall (fun b : rblock => Z.of_nat (length (snd b)) <= 16384) rep.
+Proof. intros atok r now maxSize r' rep E. exact (proj1 (build_size atok r now maxSize r' rep E)). Qed.
+Print Assumptions C08_block_limit.
+
+(* a report block never holds more metric blocks than a non-negative budget *)
+Theorem C08_budget_respected : forall atok s ref budget, 0 <= budget ->
+  Z.of_nat (length (snd (snd (metrics_after atok s ref budget)))) <= budget.
+Proof. exact metrics_after_length. Qed.
+Print Assumptions C08_budget_respected.
